@@ -105,6 +105,10 @@ def check(ai: int, fwd: bool) -> bool:
                 # navigating from i across 'precedes' reaches its successor
                 xtuml.relate(insts[i], insts[s], 1, 'precedes')
         qs = m.select_many(KIND, lambda sel: (sub >> insts.index(sel)) & 1)
+        rot = PARAMS.get('rotate', 0)
+        if rot:
+            members = list(qs)
+            qs = xtuml.QuerySet(members[rot % len(members):] + members[:rot % len(members)]) if members else qs
     fuel = [0]
     orig = xtuml.meta.navigate_one
 
@@ -135,7 +139,7 @@ def check(ai: int, fwd: bool) -> bool:
             LAST_DIFF = ('subset result', got, succ, sub); return False
         return True
     if MODE == 'ring':
-        exp = [0]
+        exp = [insts.index(qs.first)]        # once around, starting at the SET's first member
         while len(exp) < N:
             exp.append(succ[exp[-1]] if fwd else list(succ).index(exp[-1]))
         if got != exp:
